@@ -137,6 +137,11 @@ package parser
 //@ func validateStringMap [C02]
 //@   ensures !result0 ==> result1.Err != nil
 //@   ensures result0 ==> result1.Err == nil
+// C01: yaml.v3 refuses a mapping that defines a key twice when it decodes labels / annotations into a map
+//@   ensures [C01] result0 ==> (forall i, j int :: 0 <= i && i < j && j < len(nodes) ==> nodes[i].key.Value != nodes[j].key.Value)
+//@   loop 1 invariant [C01] 0 <= iter1 && iter1 <= len(nodes)
+//@   loop 1 invariant [C01] forall k int :: 0 <= k && k < iter1 ==> has(names, nodes[k].key.Value)
+//@   loop 1 invariant [C01] forall i, j int :: 0 <= i && i < j && j < iter1 ==> nodes[i].key.Value != nodes[j].key.Value
 
 //@ func ensureRequiredKeys [C02]
 //@   ensures !result1 ==> result0.Error.Err != nil
@@ -263,6 +268,9 @@ package parser
 //@   loop 1 invariant forall j int :: 0 <= j && j < iter1 ==> (es[j].key.Value == "interval" ==> durationParses(es[j].val.Value))
 //@   loop 1 invariant forall j int :: 0 <= j && j < iter1 ==> (es[j].key.Value == "query_offset" ==> durationParses(es[j].val.Value))
 //@   loop 1 invariant forall j int :: 0 <= j && j < iter1 ==> groupKey(es[j].key.Value, schema)
+//@   loop 1 invariant forall k int :: 0 <= k && k < iter1 ==> has(setKeys, es[k].key.Value)
+//@   loop 1 invariant forall i, j int :: 0 <= i && i < j && j < iter1 ==> es[i].key.Value != es[j].key.Value
+//@   ensures group.Error.Err == nil && (shortTag(node) == "!!map" || shortTag(node) == "!!null") ==> (forall i, j int :: 0 <= i && i < j && j < len(es) ==> es[i].key.Value != es[j].key.Value)
 //@   ensures group.Error.Err == nil && (shortTag(node) == "!!map" || shortTag(node) == "!!null") ==> (forall j int :: 0 <= j && j < len(es) ==> (es[j].key.Value == "limit" ==> (shortTag(es[j].val) == "!!int" || shortTag(es[j].val) == "!!float")))
 //@   ensures group.Error.Err == nil && (shortTag(node) == "!!map" || shortTag(node) == "!!null") ==> (forall j int :: 0 <= j && j < len(es) ==> (es[j].key.Value == "interval" ==> durationParses(es[j].val.Value)))
 //@   ensures group.Error.Err == nil && (shortTag(node) == "!!map" || shortTag(node) == "!!null") ==> (forall j int :: 0 <= j && j < len(es) ==> (es[j].key.Value == "query_offset" ==> durationParses(es[j].val.Value)))
